@@ -6,11 +6,14 @@ import (
 	"sort"
 	"strconv"
 	"strings"
+	"io"
+	"log/slog"
 	"sync"
 	"time"
 
 	"reduction.dev/reduction/dkv"
 	"reduction.dev/reduction/dkv/kv"
+	"reduction.dev/reduction/dkv/recovery"
 	"reduction.dev/reduction/dkv/sst"
 	"reduction.dev/reduction/dkv/storage"
 	"reduction.dev/reduction/util/verifhook"
@@ -103,6 +106,9 @@ type c18Cfg struct {
 	levels, l0, amp, target              int
 	smallest                             int64
 	mem                                  int
+	nsrc, sl0, samp                      int
+	ssmall                               int64
+	order                                []int
 }
 
 func parseC18Header(h string) c18Cfg {
@@ -128,6 +134,19 @@ func parseC18Header(h string) c18Cfg {
 			c.target = int(v)
 		case "mem":
 			c.mem = int(v)
+		case "nsrc":
+			c.nsrc = int(v)
+		case "sl0":
+			c.sl0 = int(v)
+		case "samp":
+			c.samp = int(v)
+		case "ssmall":
+			c.ssmall = v
+		case "order":
+			for _, x := range strings.Split(kvp[1], ".") {
+				n, _ := strconv.Atoi(x)
+				c.order = append(c.order, n)
+			}
 		}
 	}
 	return c
@@ -231,10 +250,108 @@ func runC18Direct(c lib.Case, cfg c18Cfg) []string {
 		last: "none cur=0",
 	}
 	flushedSinceCompute := false
+	// mode=ckpt: source databases whose checkpoints are merged into one level list by recovery.LoadCheckpointList
+	var srcs []*dkv.DB
+	srcRoot := storage.NewMemoryFilesystem()
+	if cfg.mode == "ckpt" {
+		c07Mu.Lock() // the flush/compaction queues of dkv are process-global
+		defer c07Mu.Unlock()
+		c07Seq++
+		verifhook.Set(nil)
+
+		for i := 0; i < cfg.nsrc; i++ {
+			db := dkv.New(dkv.DBOptions{FileSystem: srcRoot.WithWorkingDir(fmt.Sprintf("c18k-%d/s%d", c07Seq, i)), MemTableSize: uint64(cfg.mem),
+				TargetFileSize: uint64(cfg.target), L0TableNumCompactionTrigger: cfg.sl0, Logger: slog.New(slog.NewTextHandler(io.Discard, nil))})
+			sc := db.VerifCompactor()
+			sc.MaxSizeAmplificationPercent = cfg.samp
+			sc.SmallestLevelSize = cfg.ssmall
+			if err := db.Start(nil); err != nil {
+				panic(err)
+			}
+			srcs = append(srcs, db)
+		}
+	}
+	waitSrc := func(db *dkv.DB) bool {
+		done := make(chan struct{})
+		go func() {
+			for i := 0; i < 2; i++ { // a flush task enqueues its compaction task when it finishes
+				db.WaitOnTasks()
+				time.Sleep(200 * time.Microsecond)
+			}
+			close(done)
+		}()
+		select {
+		case <-done:
+			return true
+		case <-time.After(10 * time.Second):
+			return false
+		}
+	}
 	out := make([]string, 0, len(c.Ops))
 	for _, op := range c.Ops {
 		f := strings.Fields(op)
 		switch f[0] {
+		case "w":
+			i, _ := strconv.Atoi(f[1])
+			if i >= len(srcs) {
+				out = append(out, "bad-src")
+				continue
+			}
+			if f[2] == "put" {
+				srcs[i].Put(lib.UnHex(f[3]), lib.UnHex(f[4]))
+			} else {
+				srcs[i].Delete(lib.UnHex(f[3]))
+			}
+			if !waitSrc(srcs[i]) {
+				out = append(out, "timeout")
+				continue
+			}
+			out = append(out, "ok")
+		case "load":
+			var handles []recovery.CheckpointHandle
+			bad := ""
+			for _, si := range cfg.order {
+				if si >= len(srcs) {
+					bad = "bad-order"
+					break
+				}
+				if !waitSrc(srcs[si]) {
+					bad = "timeout"
+					break
+				}
+				h, err := srcs[si].Checkpoint(1)()
+				if err != nil {
+					bad = "err checkpoint"
+					break
+				}
+				handles = append(handles, h)
+			}
+			if bad != "" {
+				out = append(out, bad)
+				continue
+			}
+			cl, err := recovery.LoadCheckpointList(srcRoot, &kv.AllDataOwnership{}, handles)
+			if err != nil {
+				out = append(out, "err load")
+				continue
+			}
+			d.ll = cl.Latest().Levels
+			for _, l := range d.ll.VerifLayout() {
+				for _, ti := range l {
+					d.ids[ti.Table] = d.nextID
+					d.nextID++
+				}
+			}
+			c18Bump("ckpt:loaded")
+			if l0 := d.ll.VerifLayout()[0]; len(l0) > 1 {
+				for i := 0; i+1 < len(l0); i++ {
+					if l0[i].StartSeqNum > l0[i+1].StartSeqNum {
+						c18Bump("ckpt:l0-age-disagrees-with-insertion-order")
+						break
+					}
+				}
+			}
+			out = append(out, d.dump())
 		case "tbl":
 			lvl, _ := strconv.Atoi(f[1])
 			d.ll.AddTables(lvl, d.write(f[2]))
@@ -534,6 +651,76 @@ func c18GenDB(r *lib.Rng, tier string) lib.Case {
 	return lib.Case{Header: hdr, Ops: ops}
 }
 
+// c18GenCkpt: two or three real source databases write disjoint key spaces (their sequence numbers are unrelated), their
+// checkpoints are merged by recovery.LoadCheckpointList in a random handle order, then Compact runs on the composite.
+func c18GenCkpt(r *lib.Rng, tier string) lib.Case {
+	nsrc := r.Range(2, 3)
+	order := make([]int, nsrc)
+	for i := range order {
+		order[i] = i
+	}
+	for i := nsrc - 1; i > 0; i-- {
+		j := r.Intn(i + 1)
+		order[i], order[j] = order[j], order[i]
+	}
+	var os []string
+	for _, x := range order {
+		os = append(os, strconv.Itoa(x))
+	}
+	hdr := fmt.Sprintf("M C18 mode=ckpt levels=6 nsrc=%d order=%s mem=%d sl0=%d samp=%d ssmall=%d l0=%d amp=%d smallest=%d target=%d", nsrc, strings.Join(os, "."),
+		lib.Pick(r, []int{40, 60, 100}), lib.Pick(r, []int{2, 3, 100}), lib.Pick(r, []int{50, 250, 100000}), lib.Pick(r, []int64{1, 9000, 1 << 40}),
+		lib.Pick(r, []int{1, 1, 2, 3}), lib.Pick(r, []int{1, 25, 50, 100, 150, 250, 400, 100000}),
+		lib.Pick(r, []int64{1, 2000, 4500, 9000, 1 << 40}), lib.Pick(r, []int{24, 48, 96, 200, 1 << 20}))
+	suffixes := [][]byte{{}, {0x00}, {0x61}, {0x61, 0x62}, {0xff}}
+	key := func(src int) []byte { return append([]byte{byte(0x10 * (src + 1))}, lib.Pick(r, suffixes)...) }
+	var ops []string
+	left := make([]int, nsrc)
+	total := 0
+	for i := range left {
+		left[i] = r.Range(4, 14)
+		total += left[i]
+	}
+	for total > 0 {
+		i := r.Intn(nsrc)
+		if left[i] == 0 {
+			continue
+		}
+		left[i]--
+		total--
+		if r.Chance(1, 6) {
+			ops = append(ops, fmt.Sprintf("w %d del %s", i, lib.Hex(key(i))))
+		} else {
+			ops = append(ops, fmt.Sprintf("w %d put %s %s", i, lib.Hex(key(i)), lib.Hex(r.Bytes(r.Range(1, 30)))))
+		}
+	}
+	ops = append(ops, "load")
+	obs := []string{"valid"}
+	for s := 0; s < nsrc; s++ {
+		for _, sf := range suffixes {
+			obs = append(obs, "get "+lib.Hex(append([]byte{byte(0x10 * (s + 1))}, sf...)))
+		}
+	}
+	obs = append(obs, "scan -", "scan 10", "scan 2061", "safe", "pick", "layout")
+	ops = append(ops, obs...)
+	g := &c18Gen{r: r, seq: 100000}
+	rounds := r.Range(3, 8)
+	if tier == "thorough" {
+		rounds = r.Range(3, 14)
+	}
+	for i := 0; i < rounds; i++ {
+		ops = append(ops, "compact")
+		if r.Chance(1, 4) {
+			ops = append(ops, "flush "+g.run([][]byte{key(r.Intn(nsrc))}))
+		}
+		ops = append(ops, "apply")
+		ops = append(ops, obs...)
+		if r.Chance(1, 3) {
+			ops = append(ops, "flush "+g.run([][]byte{key(r.Intn(nsrc))}))
+		}
+	}
+	return lib.Case{Header: hdr, Ops: ops}
+}
+
 func c18Fixed() []lib.Case {
 	obs := c18ObserveOps()
 	// D22: L0{k@9}  L2{A: a@1, B: k@5}  base{z@2}, four tables of about the same size, goal 250 %: 300 % before, 200 % after
@@ -575,6 +762,9 @@ func propC18() *lib.Prop {
 		Gen: func(r *lib.Rng, tier string, i int) lib.Case {
 			if i%4 == 3 {
 				return c18GenDB(r, tier)
+			}
+			if i%4 == 1 {
+				return c18GenCkpt(r, tier)
 			}
 			return c18GenDirect(r, tier)
 		},
